@@ -1,11 +1,16 @@
 """C12 — program-level pipeline check (DESIGN.md §3 C12): theorems of Props/C12.lean, T1 dispatch tables, T2 kernel skeletons,
 T3 differential of harness/pipe.cpp (real library) against the Lean mechanism `mech` and the sequential reading `spec`."""
+from vlib import apiprobe
 from vlib import pipecheck
 
 
 def run(res, tier):
+    apiprobe.stage(res, 'C12', tier)  # every public form of the area still instantiates (vlib/apiprobe.py, harness/api_probe_*.cpp)
     pipecheck.run(res, 'C12', tier)
 
 
 def replay(path):
+    r = apiprobe.replay(path)
+    if r is not None:
+        return r
     return pipecheck.replay('C12', path)
